@@ -46,6 +46,15 @@ Mutants (checks/mutants/C10; each `VERIF_REPO=/tmp/comp-x bin/check C10 quick` e
                             + \u00d6rg, non-UTF-8 octets), one of them spelled RAW in every Go string of the case (rawtag raw-utf8 | raw-nonutf8)
   ecdsa-trailing-octets.diff   ECDSA Verify ignores octets after R|S (seed C10-9) -> pass 2 verify-accepts-invalid:signature:signature-extended
                             (every signature, every algorithm: zero appended, two octets appended, doubled, zero prepended)
+  keytag-loop-fold.diff     KeyTag folds the carry in a loop (seed C10-10) -> pass 2 verify-accepts-invalid:forge-keytag-carry-library-tag:key-tag and
+                            verify-rejects-valid:forge-keytag-carry-appendix-b-tag:*: per signature a key whose flags word (ZONE + reserved bits) makes
+                            low + high of the word sum reach 2^16; MC_Dnssec ASSUMEs the committed vectors (RFC 4034 s.5.4 key = 60485, 3 such keys)
+  rsa-key-cache-by-tag.diff RSA public keys cached by owner / algorithm / tag (seed C10-11) -> pass 2 verify-accepts-invalid:signature:
+                            forge-rsa-same-tag-other-key and verify-rejects-valid:forge-rsa-same-tag-right-key:*: key B = key A with two modulus octets
+                            of equal parity exchanged (same tag), both under a fresh owner, order A B A and B A A in one process
+  expiration-before-inception-refused.diff  (seed C10-12) -> pass 2 verify-rejects-valid:forge-window-wrap:* and :orig:* : inception / expiration
+                            (2^32-14d, 14d-1), (2^32-1, 0), (0, 0), (100, 99), (2^31, 2^31-1) at sign time and forged for every signature
+  reintroduce-canonicalname-utf8.diff  reverse of fix 08a0adc -> finish (1) sign-not-over-canonical-octets:raw-nonutf8, pass 2 verify-rejects-valid:raw-nonutf8
   equal-overfolds.diff      labels.go equal() takes any two octets 0x20 apart (>= 'A') for one letter: [ {, ] }, ^ ~ -> pass 2
                             verify-accepts-invalid:forge-key-owner-xor20:signer and ...:forge-rrsig-owner-xor20:owner (stdlib-signed variants whose
                             DNSKEY owner / RRSIG owner differs from the signer / RRset owner in one octet by 0x20; a window of octet values per
@@ -58,7 +67,7 @@ Benign (checks/benign/C10, must exit 0): dedup-first-prechecks-reordered.diff (d
 the key pre-checks in another order).
 Findings of this check on the originally pinned tree, since repaired in /repo: NXT next name not lower-cased (fb0255f); Sign took every
 owner starting with '*' for a wildcard (f3cd792: *a.example. signed as *.example., verifying for any name below example.); "*.." for a
-wildcard below the root (ffb8107).  Still listed: CanonicalName (strings.Map) replaces raw non-UTF-8 octets >= 0x80 by U+FFFD (keys ...:raw-nonutf8); capital letters spelled \\DDD in the owner text are not folded (known-findings.d/C10.txt).
+wildcard below the root (ffb8107).  CanonicalName replaced raw non-UTF-8 octets by U+FFFD (08a0adc).  Still listed: capital letters spelled \\DDD in the owner text are not folded (known-findings.d/C10.txt).
 """
 import os, json
 import vp
